@@ -56,83 +56,53 @@ uint8_t *ll_skinny_calloc(uint64_t size, uint8_t *base_ptr)   /* contract model 
 #endif
 
 /* ---------------- operations on an object of the selected back end ---------------- */
+#if !VEC
+#define VTABLE_UNDER_TEST (&GEN_VT)
+#elif CIPHER == 1 && VEC == 128
+#define VTABLE_UNDER_TEST (&_skinny128_ctr_vec128)
+#elif CIPHER == 1
+#define VTABLE_UNDER_TEST (&_skinny128_ctr_vec256)
+#elif CIPHER == 2
+#define VTABLE_UNDER_TEST (&_skinny64_ctr_vec128)
+#else
+#define VTABLE_UNDER_TEST (&_mantis_ctr_vec128)
+#endif
 typedef struct { const void *vtable; void *ctx; } obj_t;
 uint8_t sym_key[48], sym_cnt[BLK], sym_tw[BLK], sym_data[2 * B + 3], sym_handle[sizeof(obj_t)];
 #ifdef OB_WIPE
 uint8_t sym_fill[800];
 #endif
 
-static int op_init(obj_t *o)
-{
-#if VEC
-    o->vtable = (const void *)1;                      /* the dispatcher sets the vtable before calling the back end's init */
-    return (int)VF(init)((uint8_t *)o);
-#else
-    return PUB(init)((HANDLE_T *)o);
-#endif
-}
-static void op_cleanup(obj_t *o)
-{
-#if VEC
-    if (o && o->vtable) { VF(cleanup)((uint8_t *)o); o->vtable = 0; }    /* what the dispatcher does */
-#else
-    PUB(cleanup)((HANDLE_T *)o);
-#endif
-}
-#if VEC
-#define GUARDED(call) ((o && o->vtable) ? (int)(call) : 0)            /* the dispatcher's guard, then the vec entry point */
-#else
-#define GUARDED(call) (call)
-#endif
+/* every operation goes through the public function: the real dispatcher (native) and, behind the vtable, the back end
+   under test (generic: native; vector: clang IR reached through the bridging vtable of ctr_model.h) */
+#undef VEC_DIRECT
+static int op_init(obj_t *o) { return PUB(init)((HANDLE_T *)o); }
+static void op_cleanup(obj_t *o) { PUB(cleanup)((HANDLE_T *)o); }
 static int op_set_key(obj_t *o, const uint8_t *key, unsigned len)
 {
 #if CIPHER == 3
-#if VEC
-    return GUARDED(VF(set_key)((uint8_t *)o, (uint8_t *)key, len, 5 + (len & 3)));
-#else
     return PUB(set_key)((HANDLE_T *)o, key, len, 5 + (len & 3));
-#endif
-#else
-#if VEC
-    return GUARDED(VF(set_key)((uint8_t *)o, (uint8_t *)key, len));
 #else
     return PUB(set_key)((HANDLE_T *)o, key, len);
-#endif
 #endif
 }
 static int op_set_tweak(obj_t *o, const uint8_t *t, unsigned len)
 {
-#if VEC
-    return GUARDED(VF(set_tweak)((uint8_t *)o, (uint8_t *)t, len));
-#else
     return PUB(set_tweak)((HANDLE_T *)o, t, len);
-#endif
 }
 #if CIPHER != 3
 static int op_set_tkey(obj_t *o, const uint8_t *key, unsigned len)
 {
-#if VEC
-    return GUARDED(VF(set_tweaked_key)((uint8_t *)o, (uint8_t *)key, len));
-#else
     return PUB(set_tweaked_key)((HANDLE_T *)o, key, len);
-#endif
 }
 #endif
 static int op_set_counter(obj_t *o, const uint8_t *c, unsigned len)
 {
-#if VEC
-    return GUARDED(VF(set_counter)((uint8_t *)o, (uint8_t *)c, len));
-#else
     return PUB(set_counter)((HANDLE_T *)o, c, len);
-#endif
 }
 static int op_encrypt(obj_t *o, uint8_t *out, const uint8_t *in, size_t n)
 {
-#if VEC
-    return GUARDED(VF(encrypt)(out, (uint8_t *)in, n, (uint8_t *)o));
-#else
     return PUB(encrypt)(out, in, n, (HANDLE_T *)o);
-#endif
 }
 #if VEC
 #define CTX_SIZE V_SIZE
@@ -227,19 +197,10 @@ void harness(void)
     sym_inputs();
     ASSUME(sym_allocfail[0] != 0);
     memcpy(&o, sym_handle, sizeof o);                 /* whatever the caller's object contained before */
-    int r;
-#if VEC
-    /* the dispatcher (native, same code for every back end) around the vector back end's init */
-    o.vtable = (const void *)1; r = (int)VF(init)((uint8_t *)&o);
-    if (!r) { /* what the real dispatcher does with a failing back-end init is decided on the generic path below */ }
-    CHECK(r == 0, "init reports the allocation failure");
-    CHECK(n_live == 0, "nothing is leaked");
-#else
-    r = PUB(init)((HANDLE_T *)&o);
+    int r = PUB(init)((HANDLE_T *)&o);                 /* real dispatcher + the init of the back end under test */
     CHECK(r == 0, "init reports the allocation failure");
     CHECK(n_live == 0, "nothing is leaked");
     CHECK(o.vtable == 0 || o.ctx == 0, "the handle is left inert (no back end or no context), whatever it contained before");
-#endif
     WITNESS_POINT();
 }
 #elif defined(OB_INERT)
@@ -254,9 +215,7 @@ void harness(void)
     o.vtable = 0;                                     /* no back end (zeroed, cleaned up, failed init): ctx arbitrary */
 #else
     ASSUME(o.vtable != 0); o.ctx = 0;                  /* back end chosen but no context */
-#if !VEC
-    o.vtable = &GEN_VT;
-#endif
+    o.vtable = VTABLE_UNDER_TEST;
 #endif
     before = o; SYM_U8A(out); memcpy(outb, out, sizeof out);
     CHECK(op_set_key(&o, sym_key, CIPHER == 3 ? 16 : BLK) == 0, "set_key on an inert object returns 0");
@@ -283,9 +242,9 @@ void harness(void)
     /* representation invariants: keystream offset within the batch, a round count the API can produce (concrete: a
        symbolic count would make an implementation that wrongly proceeds loop over it) */
 #if VEC
-    o.vtable = (const void *)1; ASSUME(V_OFF(ctx) <= B);
+    o.vtable = VTABLE_UNDER_TEST; ASSUME(V_OFF(ctx) <= B);
 #else
-    o.vtable = &GEN_VT; ASSUME(((GCTX_T *)ctx)->offset <= B);
+    o.vtable = VTABLE_UNDER_TEST; ASSUME(((GCTX_T *)ctx)->offset <= B);
 #endif
 #if CIPHER == 3
     ((MantisKey_t *)ctx)->rounds = 5;
